@@ -75,7 +75,29 @@ def make_item(t, v, annotate=None):
     tj = terms.type_json(t)
     if annotate:
         tj = annotate(tj)
-    return _mtype(tj).from_micheline_value(terms.value_json(t, v))
+    return _mtype(tj).from_micheline_value(_ts_text(t, terms.value_json(t, v)))
+
+
+def _ts_text(t, j):
+    """A timestamp literal may be written as an integer or as RFC 3339 text; every other timestamp handed to pytezos (even values, years 1..9999) is
+    written as text - the same value, whatever the time zone of the process."""
+    if t[0] == 'timestamp' and isinstance(j, dict) and 'int' in j:
+        v = int(j['int'])
+        if v % 2 == 0 and -62135596800 <= v < 253402300800:
+            import datetime
+            d = datetime.datetime(1970, 1, 1) + datetime.timedelta(seconds=v)
+            return {'string': d.strftime('%Y-%m-%dT%H:%M:%SZ') if d.year >= 1000 else '%04d' % d.year + d.strftime('-%m-%dT%H:%M:%SZ')}
+        return j
+    if isinstance(j, dict) and 'args' in j and t[0] in ('pair', 'option', 'or') :
+        args = list(j['args'])
+        if t[0] == 'pair' and len(args) == 2:
+            args = [_ts_text(t[1], args[0]), _ts_text(t[2], args[1])]
+        elif t[0] == 'option' and len(args) == 1:
+            args = [_ts_text(t[1], args[0])]
+        elif t[0] == 'or' and len(args) == 1:
+            args = [_ts_text(t[1] if j['prim'] == 'Left' else t[2], args[0])]
+        return dict(j, args=args)
+    return j
 
 
 def make_context(env):
